@@ -1421,6 +1421,14 @@ func genC10(r *rng, n int, emit func(string)) {
 	emit("pdec8a " + hxs(strings.Repeat("9", 5000)))
 	emit("phexts " + hxs(strings.Repeat("f", 65536)))
 	emit("hexin " + hxs(strings.Repeat("ab", 32768)) + " x x x x")
+	for _, w := range []int64{-1, -2, -16, -1 << 31, -1 << 62, -1 << 63, 0} {
+		emit(fmt.Sprintf("lpad %s %d", hxs("abc"), w))
+		emit(fmt.Sprintf("lpad %s %d", hxs(""), w))
+	}
+	for _, sec := range []string{"GEZDGNBVGY3TQOJQGEZDGNBVGY3TQOJQ", "", "not base32!"} {
+		emit("gocra_nil " + hxs(sec) + " x,x3132333435363738,x,x,x")
+		emit("vocra_nil " + hxs(sec) + " " + hxs("123456") + " x,x3132333435363738,x,x,x")
+	}
 	emit("lpad " + hxs("abc") + " 1048576")
 	emit("lpad " + hxs(strings.Repeat("a", 70000)) + " 5")
 	emit("uparse " + hxs("otpauth://totp/"+strings.Repeat("a%20", 16000)+":b?secret=x"))
